@@ -258,7 +258,9 @@ def oracle(case):
     work = env.new_dir('c07')
     xmls = []
     for k, (res, style) in enumerate(zip(case['resources'], case['styles'])):
-        xmls.append(xmlw.write(res, work / f'r{k}.xml', style))
+        # every other resource file has '..' inside its name (not a path component)
+        xmls.append(xmlw.write(res, work / (f'r{k}..v.xml' if k % 2 == 0 else f'r{k}.xml'),
+                               style))
     base_dir = work / 'base'
     base_dir.mkdir()
     route_dir = work / 'route'
